@@ -21,7 +21,7 @@ REPLAY = '''
 sys.path.insert(0, '/verif')
 import warnings; warnings.filterwarnings('ignore')
 from checks.c18 import concrete_run
-msg = concrete_run(%(nports)d, %(lat)d, %(sink_delay)d, %(reqs)r, %(init)r, %(variant)r, %(dws)r, %(scripts)r)
+msg = concrete_run(%(nports)d, %(lat)d, %(sink_delay)d, %(reqs)r, %(init)r, %(variant)r, %(dws)r, %(scripts)r, %(mem_nbytes)r)
 if msg: reproduced(msg)
 '''
 
@@ -85,7 +85,7 @@ def _classes(dw=32):
 def _lw(dw): return (dw // 8 - 1).bit_length()      # width of the len field
 
 
-def _harness_rtl(nports, src_msgs, sink_msgs, lat, sink_delay, stall_prob, dws=None):
+def _harness_rtl(nports, src_msgs, sink_msgs, lat, sink_delay, stall_prob, dws=None, mem_nbytes=None):
   """the stream (val/rdy, RTL-interface) variant: SourceRTL -> MagicMemoryRTL (RandomStall, InelasticDelayPipe) -> SinkRTL"""
   from pymtl3 import Component
   from pymtl3.stdlib.stream.SourceRTL import SourceRTL
@@ -96,7 +96,7 @@ def _harness_rtl(nports, src_msgs, sink_msgs, lat, sink_delay, stall_prob, dws=N
   class THR(Component):
     def construct(s):
       s.srcs = [SourceRTL(cls[i][0], src_msgs[i], 0, 0) for i in range(nports)]
-      s.mem = MagicMemoryRTL(nports, cls, stall_prob, lat)
+      s.mem = MagicMemoryRTL(nports, cls, stall_prob, lat, **({'mem_nbytes': mem_nbytes} if mem_nbytes else {}))
       s.sinks = [SinkRTL(cls[i][1], sink_msgs[i], 0, sink_delay) for i in range(nports)]
       for i in range(nports):
         s.srcs[i].send //= s.mem.ifc[i].req
@@ -115,10 +115,10 @@ def _install_stalls(th, variant, budget=2):
       blk.__closure__[k].cell_contents = SymStall(i, budget)
 
 
-def _harness(nports, src_msgs, sink_msgs, lat, sink_delay, stall_prob, variant='cl', keep=None, dws=None):
+def _harness(nports, src_msgs, sink_msgs, lat, sink_delay, stall_prob, variant='cl', keep=None, dws=None, mem_nbytes=None):
   """keep: list that receives (response object, expected) for every response the CL sinks accept -- the consumer KEEPS the
   objects it was handed, so that a later modification of a delivered response is seen"""
-  if variant == 'rtl': return _harness_rtl(nports, src_msgs, sink_msgs, lat, sink_delay, stall_prob, dws)
+  if variant == 'rtl': return _harness_rtl(nports, src_msgs, sink_msgs, lat, sink_delay, stall_prob, dws, mem_nbytes)
   if keep is None: keep = []
   def cmp_keep(a, b):
     keep.append((a, b)); return a == b
@@ -130,7 +130,7 @@ def _harness(nports, src_msgs, sink_msgs, lat, sink_delay, stall_prob, variant='
   class TH(Component):
     def construct(s):
       s.srcs = [TestSrcCL(cls[i][0], src_msgs[i]) for i in range(nports)]
-      s.mem = MagicMemoryCL(nports, cls, stall_prob, lat)
+      s.mem = MagicMemoryCL(nports, cls, stall_prob, lat, **({'mem_nbytes': mem_nbytes} if mem_nbytes else {}))
       s.sinks = [TestSinkCL(cls[i][1], sink_msgs[i], 0, sink_delay, cmp_fn=cmp_keep) for i in range(nports)]
       for i in range(nports):
         connect(s.srcs[i].send, s.mem.ifc[i].req)
@@ -139,7 +139,7 @@ def _harness(nports, src_msgs, sink_msgs, lat, sink_delay, stall_prob, variant='
   return TH()
 
 
-def concrete_run(nports, lat, sink_delay, reqs, init, variant='cl', dws=None, stall_scripts=None):
+def concrete_run(nports, lat, sink_delay, reqs, init, variant='cl', dws=None, stall_scripts=None, mem_nbytes=None):
   """replay on the pristine library: reqs[port] = [(type, addr, len, data, opaque)], init = {addr: byte}.
   Tries stall probability 0 and 0.5 (stall decisions may only change WHEN responses arrive)."""
   from pymtl3 import DefaultPassGroup
@@ -154,9 +154,10 @@ def concrete_run(nports, lat, sink_delay, reqs, init, variant='cl', dws=None, st
       rl, rd = MS.py_step(mem, t, a, l, d, dws[p])
       exp[p].append(cls[p][1](t, o, 0, rl, rd))
     keep = []
-    th = _harness(nports, [[cls[p][0](t, o, a, l, d) for (t, a, l, d, o) in x] for p, x in enumerate(reqs)], exp, lat, sink_delay, prob, variant, keep, dws)
+    th = _harness(nports, [[cls[p][0](t, o, a, l, d) for (t, a, l, d, o) in x] for p, x in enumerate(reqs)], exp, lat, sink_delay, prob, variant, keep, dws, mem_nbytes)
     th.elaborate()
-    for a, b in init.items(): th.mem.mem.mem[a] = b
+    for a, b in init.items():
+      if a < len(th.mem.mem.mem): th.mem.mem.mem[a] = b
     if stall_scripts and prob == 0.5:
       _install_scripted(th, variant, stall_scripts); stall_scripts = None      # first round: the model's stall decisions; later rounds: the library's own generator
     th.apply(DefaultPassGroup()); th.sim_reset()
@@ -168,7 +169,7 @@ def concrete_run(nports, lat, sink_delay, reqs, init, variant='cl', dws=None, st
     if not th.done(): return f"MagicMemoryCL nports={nports} latency={lat} sink_delay={sink_delay} stall_prob={prob}: not all responses arrived after {n} cycles"
     for got, want in keep:
       if got != want: return f"MagicMemory{variant.upper()} nports={nports} latency={lat} sink_delay={sink_delay} stall_prob={prob} requests {reqs}: a response the consumer had accepted as {want} reads {got} at the end of the run (the delivered object was modified afterwards)"
-    for a in set(mem) | set(init):
+    for a in sorted(x for x in set(mem) | set(init) if x < len(th.mem.mem.mem)):
       if th.mem.mem.mem[a] != mem.get(a, 0): return f"final image byte {a:#x} = {th.mem.mem.mem[a]:#x}, sequential specification {mem.get(a, 0):#x} (requests {reqs})"
   return None
 
@@ -189,7 +190,7 @@ def item_mem(it):
   cls = [_classes(dw) for dw in dws]
   import pymtl3.stdlib.stream.magic_memory as SMM
   core.install(SMM.__dict__)
-  name = f"mem-{variant}/{fam}/ports={nports}/reqs={nreq}/lat={lat}/sinkdelay={sink_delay}/stalls={'sym' if stalls else 'none'}" + (f"/data_widths={dws}" if it.get('dws') else '')
+  name = f"mem-{variant}/{fam}/ports={nports}/reqs={nreq}/lat={lat}/sinkdelay={sink_delay}/stalls={'sym' if stalls else 'none'}" + (f"/data_widths={dws}" if it.get('dws') else '') + (f"/mem_nbytes={it['mem_nbytes']}" if it.get('mem_nbytes') else '')
   res = Result(name)
   types = MS.FAMILIES[fam]
   V = []      # per port list of (t, a, l, d, o)
@@ -225,9 +226,9 @@ def item_mem(it):
       arr, rlen, rdata = MS.z3_step(arr, t, a, l, d, dws[p])
       exp[p].append(mk(cls[p][1], type_=t, opaque=o, test=0, len=rlen, data=rdata))
     keep = []
-    th = _harness(nports, srcs, exp, lat, sink_delay, 0.5 if stalls else 0, variant, keep, dws)
+    th = _harness(nports, srcs, exp, lat, sink_delay, 0.5 if stalls else 0, variant, keep, dws, it.get('mem_nbytes'))
     th.elaborate()
-    store = ArrayBytes(1 << 20, arr0)
+    store = ArrayBytes(it.get('mem_nbytes') or (1 << 20), arr0)
     th.mem.mem.mem = store
     if stalls: _install_stalls(th, variant, it.get('stall_budget', 2))
     th.apply(DefaultPassGroup()); th.sim_reset()
@@ -257,13 +258,21 @@ def item_mem(it):
           while sc and sc[-1]: sc.pop()
           scripts.append(sc)
       rec['violations'].append(dict(key=f"MagicMemory{variant.upper()}:{fam}", what=f"{name}: {what}", speculative=speculative,
-                                    replay=REPLAY % dict(nports=nports, lat=lat, sink_delay=sink_delay, reqs=reqs, init=init, variant=variant, dws=dws, scripts=scripts)))
+                                    replay=REPLAY % dict(nports=nports, lat=lat, sink_delay=sink_delay, reqs=reqs, init=init, variant=variant, dws=dws, scripts=scripts, mem_nbytes=it.get('mem_nbytes'))))
     if exc is not None:
       # an exception may stem from the byte-store stand-in (no buffer protocol): propose models with every address
       # alignment first (speculative: kept only if the replay on the real code reproduces), then the plain model
       alla = [v[1] for vs in V for v in vs]
       distinct = [z3.Select(arr0, z3.BitVecVal(j, 32)) == 17 * j + 1 for j in range(WINDOW + 4)] + [v[3] == (0x8877665511223344 + 0x01010101 * n_) % (1 << v[3].size()) for n_, v in enumerate(v for vs in V for v in vs)]
       for k in (1, 2, 3, 0): viol(f"{type(exc).__name__}: {str(exc)[:200]}", [z3.Extract(1, 0, a) == k for a in alla] + distinct, speculative=True)
+      # ... and boundary data (carries out of the word, sign boundaries) on an all-ones memory, same address for every request
+      ones = [z3.Select(arr0, z3.BitVecVal(j, 32)) == 0xff for j in range(WINDOW + 8)]
+      same = [a == alla[0] for a in alla[1:]]
+      for dv in (1, -1, 1 << 31):
+        for ty in [t_ for t_ in (MS.AMO_ADD, MS.AMO_MIN, MS.WRITE) if t_ in types]:
+          allv = [v for vs in V for v in vs]
+          for sel in [allv] + [[v] for v in allv]:        # the path condition may already pin some request types: also try one request at a time
+            viol(f"{type(exc).__name__}: {str(exc)[:200]}", ones + same + [v[3] == z3.BitVecVal(dv, v[3].size()) for v in allv] + [v[0] == ty for v in sel], speculative=True)
       viol(f"{type(exc).__name__}: {str(exc)[:200]}"); return rec
     th, n, got, want = out
     if not th.done(): viol(f"responses missing after {n} cycles"); return rec
@@ -311,7 +320,10 @@ def main():
     add(family='w', nreq=4, lat=1, nports=1, sink_delay=2, stalls=True, variant='rtl', len0=True, stall_budget=1)
     add(family='rw', nreq=1, lat=1, nports=2, sink_delay=0, stalls=False, variant='rtl', dws=[32, 64])
     add(family='rw', nreq=1, lat=0, nports=2, sink_delay=1, stalls=False, dws=[64, 16])
+    add(family='rw', nreq=2, lat=1, nports=1, sink_delay=0, stalls=False, mem_nbytes=24)
   else:
+    add(family='amo_arith', nreq=2, lat=0, nports=1, sink_delay=1, stalls=False, mem_nbytes=24)
+    add(family='rw', nreq=2, lat=1, nports=1, sink_delay=0, stalls=False, variant='rtl', mem_nbytes=40)
     add(family='w', nreq=5, lat=2, nports=1, sink_delay=3, stalls=True, variant='rtl', len0=True, stall_budget=2)
     add(family='w', nreq=4, lat=1, nports=1, sink_delay=2, stalls=True, variant='rtl', len0=True, stall_budget=3)
     add(family='w', nreq=6, lat=3, nports=1, sink_delay=4, stalls=True, variant='rtl', len0=True, stall_budget=1)
@@ -335,7 +347,7 @@ def main():
     chk.absorb(it, r)
   chk.bounds = dict(configs=[i['name'] for i in items], window_bytes=WINDOW, requests_per_port='<= 2 (3 in one thorough configuration)', ports='1..2',
                     stall_decisions='arbitrary booleans, at most 2 stalled cycles per port (1 to 3 in the deep-interleaving configurations)')
-  chk.outside = ['more requests in flight than the bound', 'mem_nbytes boundaries', 'liveness under unbounded stalling',
+  chk.outside = ['more requests in flight than the bound', 'accesses that run off the end of the memory', 'liveness under unbounded stalling',
                  'two ports with unequal source timing (processing order is then schedule dependent; only the equal-timing order is specified here)']
   chk.assumptions = ['Random.random() > p replaced by an arbitrary boolean', 'bytearray replaced by a z3 Array', 'atomic operations are word sized (len field 0)']
   chk.finish(rule="per configuration: fork-mode exploration of every path (request type decode x length x stall decisions); the real TestSinkCL compares every response "
